@@ -285,10 +285,15 @@ theorem wire_enum (cls : String) (w m : Nat) (h : m < 2 ^ w)
   refine ⟨ofNat_length w m, ⟨fun h => (by cases h), fun c hc => (by cases hc; rw [e]; exact hm)⟩, ?_⟩
   have hb : blockOK C08.E.membersOf cls (m : Int) (m : Int) = true := by
     unfold blockOK
-    rw [List.all_eq_true]
-    intro x _
-    obtain ⟨lo, hi, rep⟩ := x
-    simp only [hm, Bool.not_true, Bool.and_false, Bool.not_false, Bool.true_or]
+    rw [Bool.and_eq_true]
+    constructor
+    · rw [List.all_eq_true]
+      intro x _
+      obtain ⟨lo, hi, rep⟩ := x
+      simp only [hm, Bool.not_true, Bool.and_false, Bool.not_false, Bool.true_or]
+    · cases defaultMember cls with
+      | none => rfl
+      | some d => simp only [hm, Bool.true_or]
   simp only [check, e, hm, hb, beq_self_eq_true, Bool.and_self, Bool.not_true, Bool.false_or]
 
 /-- every multiple of 0.1 below `2^w` tenths (speed, course, draught) -/
